@@ -30,17 +30,23 @@ type Case struct {
 // contend runs fn(i) on n goroutines released together by a spin barrier and returns
 // the maximum number of calls that were in flight at the same time.
 func contend(n int, fn func(i int)) int {
-	var ready, inflight, maxIn atomic.Int32
-	var start atomic.Bool
+	var ready, spinning, inflight, maxIn atomic.Int32
+	var armed, start atomic.Bool
 	var wg sync.WaitGroup
 	for i := 0; i < n; i++ {
 		i := i
 		wg.Add(1)
 		go func() {
 			defer wg.Done()
+			// phase 1: wait politely until every racer exists (the shards share the cores)
 			ready.Add(1)
+			for !armed.Load() {
+				runtime.Gosched()
+			}
+			// phase 2: tight spin on the start flag, so that the racers that are on a CPU leave together
+			spinning.Add(1)
 			for spins := 0; !start.Load(); spins++ {
-				if spins > 20000 { // early arrivals stop burning a core on an oversubscribed machine
+				if spins > 200000 { // bounded burn when the machine is oversubscribed
 					runtime.Gosched()
 				}
 			}
@@ -56,6 +62,10 @@ func contend(n int, fn func(i int)) int {
 		}()
 	}
 	for int(ready.Load()) < n {
+		runtime.Gosched()
+	}
+	armed.Store(true)
+	for int(spinning.Load()) < n {
 		runtime.Gosched()
 	}
 	start.Store(true)
